@@ -29,6 +29,11 @@ type Obligation struct {
 	Res *SolveResult
 }
 
+type borrowInfo struct {
+	scanner *Term
+	gen     *Term
+}
+
 type unsupported struct{ msg string }
 
 func (x *Exec) fail(n ast.Node, format string, args ...any) {
@@ -106,6 +111,8 @@ type Exec struct {
 	nNoPanic int
 	nGuard   int
 	entryState *State
+	borrow     map[string]borrowInfo // byte slices returned by Scanner.Bytes: scanner and its generation at that time
+	nBorrow    int
 	curRets    []*Term
 	replayOff  bool
 	discardCall *ast.CallExpr // the call of the expression statement being executed (its results are discarded)
@@ -1840,7 +1847,7 @@ func (x *Exec) runLoop(s *State, entry *State, node ast.Node, bodyNode ast.Node,
 	savedFresh := x.copyFresh()
 	savedDefers := len(x.defers)
 	savedCounts := append([]int(nil), x.loopCount...)
-	savedRet, savedNP, savedNG := x.nReturn, x.nNoPanic, x.nGuard
+	savedRet, savedNP, savedNG, savedNB := x.nReturn, x.nNoPanic, x.nGuard, x.nBorrow
 	for iter := 0; iter < 6; iter++ {
 		x.suppress = true
 		h := x.loopHead(s, entry, lc, locals, modified, pseudoInit)
@@ -1877,7 +1884,7 @@ func (x *Exec) runLoop(s *State, entry *State, node ast.Node, bodyNode ast.Node,
 		x.restoreFresh(savedFresh)
 		x.defers = x.defers[:savedDefers]
 		x.loopCount = append([]int(nil), savedCounts...)
-		x.nReturn, x.nNoPanic, x.nGuard = savedRet, savedNP, savedNG
+		x.nReturn, x.nNoPanic, x.nGuard, x.nBorrow = savedRet, savedNP, savedNG, savedNB
 		if !grew {
 			break
 		}
